@@ -24,6 +24,7 @@ import SqiProofs.FiatBytes1
 import SqiProofs.FiatBytes3
 import SqiProofs.FiatBytes5
 import SqiProofs.FpRefGen
+import SqiProofs.Fp2RefGen
 
 namespace SqiProps.C07
 open SqiModel.Gf SqiProofs.GfRef SqiProofs.GfMont SqiProofs.GfFp2
@@ -619,6 +620,35 @@ theorem ref_backend_text_to_proof :
       SqiProofs.FiatLayer3.mul_val SqiProofs.FiatLayer3.square_val,
    genOpsFull_refines .l5 SqiProofs.FiatLayer5.set_one_val SqiProofs.FiatLayer5.add_val SqiProofs.FiatLayer5.sub_val
       SqiProofs.FiatLayer5.mul_val SqiProofs.FiatLayer5.square_val⟩
+
+/-- **src/gf/ref/gfx/fp2.c, straight-line functions, by translation**: `SqiGen.Fp2Ref` (tools/translate/fp2ref.py, re-extracted on every
+    run) equals the models `fp2_*` of `SqiModel.Gf` that the generic GF(p²) theorems above are about, for EVERY operation record
+    (definitional).  Not translated: `fp2_sqrt`, `fp2_batched_inv`, `fp2_pow_vartime` (loops / byte buffer / `~` masks), `fp2_encode`,
+    `fp2_decode`: hand models tied by correspondence. -/
+theorem fp2_straightline_generated_eq_model {α : Type} (O : FpOps α) :
+    (∀ x v, SqiGen.Fp2Ref.fp2_set_small O x v = fp2_set_small O v) ∧
+    (∀ x, SqiGen.Fp2Ref.fp2_set_one O x = fp2_set_one O) ∧
+    (∀ x, SqiGen.Fp2Ref.fp2_set_zero O x = fp2_set_zero O) ∧
+    (∀ a, SqiGen.Fp2Ref.fp2_is_zero O a = fp2_is_zero O a) ∧
+    (∀ a b, SqiGen.Fp2Ref.fp2_is_equal O a b = fp2_is_equal O a b) ∧
+    (∀ a, SqiGen.Fp2Ref.fp2_is_one O a = fp2_is_one O a) ∧
+    (∀ d a0 a1 ctl, SqiGen.Fp2Ref.fp2_select O d a0 a1 ctl = fp2_select O a0 a1 ctl) ∧
+    (∀ a b ctl, SqiGen.Fp2Ref.fp2_cswap O a b ctl = fp2_cswap O a b ctl) ∧
+    (∀ x y, SqiGen.Fp2Ref.fp2_copy O x y = y) ∧
+    (∀ x y, SqiGen.Fp2Ref.fp2_half O x y = fp2_half O y) ∧
+    (∀ x y z, SqiGen.Fp2Ref.fp2_add O x y z = fp2_add O y z) ∧
+    (∀ x y z, SqiGen.Fp2Ref.fp2_sub O x y z = fp2_sub O y z) ∧
+    (∀ x y, SqiGen.Fp2Ref.fp2_neg O x y = fp2_neg O y) ∧
+    (∀ x y z, SqiGen.Fp2Ref.fp2_mul O x y z = fp2_mul O y z) ∧
+    (∀ x y, SqiGen.Fp2Ref.fp2_sqr O x y = fp2_sqr O y) ∧
+    (∀ x, SqiGen.Fp2Ref.fp2_inv O x = fp2_inv O x) ∧
+    (∀ x, SqiGen.Fp2Ref.fp2_is_square O x = fp2_is_square O x) :=
+  ⟨SqiProofs.Fp2RefGen.fp2_set_small_eq O, SqiProofs.Fp2RefGen.fp2_set_one_eq O, SqiProofs.Fp2RefGen.fp2_set_zero_eq O,
+   SqiProofs.Fp2RefGen.fp2_is_zero_eq O, SqiProofs.Fp2RefGen.fp2_is_equal_eq O, SqiProofs.Fp2RefGen.fp2_is_one_eq O,
+   SqiProofs.Fp2RefGen.fp2_select_eq O, SqiProofs.Fp2RefGen.fp2_cswap_eq O, SqiProofs.Fp2RefGen.fp2_copy_eq O,
+   SqiProofs.Fp2RefGen.fp2_half_eq O, SqiProofs.Fp2RefGen.fp2_add_eq O, SqiProofs.Fp2RefGen.fp2_sub_eq O,
+   SqiProofs.Fp2RefGen.fp2_neg_eq O, SqiProofs.Fp2RefGen.fp2_mul_eq O, SqiProofs.Fp2RefGen.fp2_sqr_eq O,
+   SqiProofs.Fp2RefGen.fp2_inv_eq O, SqiProofs.Fp2RefGen.fp2_is_square_eq O⟩
 
 /-! ## x86 ("broadwell") back-end, value-level model `SqiModel.GfX86`
 
